@@ -11,7 +11,7 @@
     - scheduling appends to the restricted queue iff the payload is of interest. *)
 From Coq Require Import List Arith NArith Bool Lia Sorting.Sorted Permutation.
 Import ListNotations.
-From GS Require Import Num EventLoop.
+From GS Require Import Num EventLoop Kernel.
 From GS.Proofs Require Import Aux EventLoopP.
 
 Section QueueRel.
@@ -124,6 +124,44 @@ Proof.
   split; [exact Hin|]. split; [exact Hmin|]. split; [exact Hnow|]. split; [exact Hseq|].
   unfold el_pop in E. destruct (el_peek A l) as [m'|]; [|discriminate]. injection E as -> <-.
   unfold oq. simpl. apply filter_q_remove; assumption.
+Qed.
+
+(* ---- a batch of scheduling requests ------------------------------------------------------------------ *)
+
+Definition ekey e : F * P := (ev_ts e, ev_pl e).
+Definition acceptable l (r : F * P) : bool := negb (fltb A (fst r) (el_now l)).
+Definition interesting (reqs : list (F * P)) : list (F * P) := filter (fun r => negb (owned (snd r))) reqs.
+
+Lemma sched_all_oq_gen {T : Type} l reqs :
+  q_ok l ->
+  let l' := fst (sched_all A (T:=T) l reqs) in
+  q_ok l' /\ el_now l' = el_now l /\
+  exists evs, oq l' = oq l ++ evs /\ map ekey evs = filter (acceptable l) (interesting reqs).
+Proof.
+  revert l. induction reqs as [|[ts p] r IH]; intros l Hok; simpl.
+  - split; [exact Hok|]. split; [reflexivity|]. exists []. rewrite app_nil_r. split; reflexivity.
+  - destruct (el_schedule A l ts p) as [l1|] eqn:E.
+    + pose proof (q_ok_schedule l ts p l1 Hok E) as Hok1. pose proof (oq_schedule l ts p l1 E) as Hq1.
+      assert (Hnow1 : el_now l1 = el_now l).
+      { unfold el_schedule in E. destruct (fltb A ts (el_now l)); [discriminate|]. injection E as <-. reflexivity. }
+      assert (Hacc : fltb A ts (el_now l) = false).
+      { unfold el_schedule in E. destruct (fltb A ts (el_now l)); [discriminate|reflexivity]. }
+      specialize (IH l1 Hok1). destruct (sched_all A l1 r) as [l2 its]. simpl in *.
+      destruct IH as (Hok2 & Hnow2 & evs & Hq2 & Hk2).
+      split; [exact Hok2|]. split; [congruence|].
+      unfold interesting. simpl. destruct (owned p) eqn:Eo; simpl.
+      * exists evs. rewrite Hq2, Hq1, app_nil_r. split; [reflexivity|].
+        rewrite Hk2. unfold interesting, acceptable. rewrite Hnow1. reflexivity.
+      * exists (mkEv ts (el_seq l) p :: evs). rewrite Hq2, Hq1, <- app_assoc. split; [reflexivity|].
+        simpl. unfold acceptable at 1. simpl. rewrite Hacc. simpl. f_equal.
+        rewrite Hk2. unfold interesting, acceptable. rewrite Hnow1. reflexivity.
+    + assert (Hrej : fltb A ts (el_now l) = true).
+      { unfold el_schedule in E. destruct (fltb A ts (el_now l)); [reflexivity|discriminate]. }
+      specialize (IH l Hok). destruct (sched_all A l r) as [l2 its]. simpl in *.
+      destruct IH as (Hok2 & Hnow2 & evs & Hq2 & Hk2).
+      split; [exact Hok2|]. split; [exact Hnow2|]. exists evs. split; [exact Hq2|].
+      unfold interesting. simpl. destruct (owned p); simpl; [exact Hk2|].
+      unfold acceptable at 1. simpl. rewrite Hrej. simpl. exact Hk2.
 Qed.
 
 (* ---- the position of the earliest event ------------------------------------------------------------- *)
